@@ -23,6 +23,8 @@ CHECKS = {
          "generated-input search; a violation always carries a closer pair of points; three open known findings (disk_to_disk, line_segment_to_circle, line_to_circle)"),
  "C13": ("property-based testing (Hypothesis): batches of points constructed at guaranteed depth / exact outside distance k*1e-9*L relative to closed-form reference shapes; cross-checks with point_to_<shape> and support functions",
          "generated-input search with constructed ground truth on both sides of the boundary; held on everything explored"),
+ "C15": ("property-based testing (Hypothesis): single tetrahedron pairs (random, lattice corner, factory) and body pairs of all factories (stacked, overlapping, disjoint); own barycentric solve, plane residual, convexity, force direction, swap symmetry",
+         "generated-input search with geometric oracles that bound the polygon from outside as the property states; held on everything explored"),
  "C17": ("property-based testing (Hypothesis): factory parameters incl. class boundaries; determinant volumes with exact rational sign for slivers, qhull volume, point-in-exactly-one-tetrahedron partition test, analytic signed distance for vertices/potentials, helper recomputation",
          "generated-input search with independent geometric oracles; held on everything explored"),
  "C18": ("exhaustive enumeration of the {-1,0,1} lattice (thorough: all 551880 configurations) + Hypothesis (lattice {-2..2}, scaled, near-degenerate, duplicates) against an exact rational (Fraction) brute-force oracle; both solvers",
